@@ -80,7 +80,7 @@ EmitFeatures == (pc = "done" /\ opts = CHOOSE o \in Options : TRUE) => PrintT(To
 JudgeRun(obs) ==
   LET feat == IF Len(obs.feature) = 0 THEN "pack" ELSE obs.feature[1] \o ":" \o obs.feature[2] IN
   IF obs.exit = "ok"
-  THEN (IF obs.hasApi /\ obs.nStubs > 0 THEN {}
+  THEN (IF obs.hasApi /\ (obs.nStubs > 0 \/ ~obs.needStubs) THEN {}
         ELSE { [property |-> "C01", clause |-> "Outcome", sig |-> "completed-without-output:" \o feat, expected |-> "API file and stubs", observed |-> ToString(<<obs.hasApi, obs.nStubs>>)] })
   ELSE IF obs.exit = "rejected"
   THEN (IF obs.expectEmpty THEN {} ELSE { [property |-> "C01", clause |-> "Outcome", sig |-> "rejected-nonempty-input:" \o feat, expected |-> "completed", observed |-> "No files found to analyse"] })
